@@ -58,6 +58,50 @@ func init() {
 	})
 }
 
+func init() {
+	// One allocation that takes the memory map from at most AllocSize to beyond it ("regime crossing"): the size
+	// the file will be grown to is then minsz + AllocSize, not the next map size. MaxSize lies between the two,
+	// so the transaction must be refused. A few small commits with deletions come first, so that free pages exist.
+	RegisterRunner("sizecross", func(sc Scenario, s *Session, rng *rand.Rand, res *ScenarioResult) {
+		if err := s.Open(true); err != nil {
+			panic(err)
+		}
+		const W = 1
+		for round := 0; round < 3; round++ {
+			s.Exec(Step{Ev: "Begin", H: W, W: true})
+			s.Exec(Step{Ev: "Op", H: W, Op: "CreateBucketIfNotExists", K: 1})
+			for i := 0; i < 12; i++ {
+				s.Exec(Step{Ev: "Op", H: W, Op: "Put", Path: []int{1}, K: 1 + round*12 + i, V: 1 + (round*12+i)%6})
+			}
+			if round > 0 {
+				for i := 0; i < 8; i++ {
+					s.Exec(Step{Ev: "Op", H: W, Op: "Delete", Path: []int{1}, K: 1 + (round-1)*12 + i})
+				}
+			}
+			s.Exec(Step{Ev: "End", H: W, How: "commit"})
+		}
+		before := len(s.T.Events)
+		s.Exec(Step{Ev: "Begin", H: W, W: true})
+		s.Exec(Step{Ev: "Op", H: W, Op: "Put", Path: []int{1}, K: 200, V: 7}) // the big value (id 7: length from the profile name)
+		s.Exec(Step{Ev: "End", H: W, How: "commit"})
+		for _, e := range s.T.Events[before:] {
+			if e["ev"] == "End" && e["err"] == "ErrMaxSizeReached" {
+				res.Counters["size_refused"]++
+				res.Counters["regime_crossings_refused"]++
+			}
+		}
+		// the database keeps working within the limit, closes and reopens
+		s.Exec(Step{Ev: "Begin", H: W, W: true})
+		s.Exec(Step{Ev: "Op", H: W, Op: "Put", Path: []int{1}, K: 201, V: 2})
+		s.Exec(Step{Ev: "End", H: W, How: "commit"})
+		s.Exec(Step{Ev: "Reopen"})
+		s.Exec(Step{Ev: "Begin", H: 2, W: false})
+		s.Exec(Step{Ev: "Dump", H: 2})
+		s.Exec(Step{Ev: "End", H: 2, How: "rollback"})
+		_ = s.CloseAll()
+	})
+}
+
 func CheckC18(c *Ctx) int {
 	c.Assume = append(boltAssume(), "file lengths are observed after every write transaction (independent read of the file) and at every truncate / write the code issues")
 	if c.Replay != "" {
@@ -84,8 +128,21 @@ func CheckC18(c *Ctx) int {
 		scs = append(scs, Scenario{Name: fmt.Sprintf("c18-%d-%d", c.Seed, i), Kind: "size", Seed: c.Seed*2203 + int64(i), Opts: o, Profile: prof, Observe: true,
 			Params: map[string]int{"rounds": 22, "burst": 20 + rng.Intn(60)}})
 	}
+	// regime crossings: alloc chunk A, a value that puts minsz about A/2 below a power of two 2^k > A, limit 2^k + A/4
+	for i := 0; i < c.Pick(8, 40); i++ {
+		ps := []int{1024, 4096}[i%2]
+		a := []int{65536, 131072, 32768}[i%3]
+		pow := a * []int{4, 8, 2}[(i/3)%3]
+		valLen := pow - a/2 - 12*ps + (i%5)*ps
+		o := Opts{PageSize: ps, AllocSize: a, MaxSize: pow + a/4 + i%3, NoFreelistSync: i%4 == 3}
+		if i%2 == 1 {
+			o.Freelist = "hashmap"
+		}
+		scs = append(scs, Scenario{Name: fmt.Sprintf("c18x-%d-%d", c.Seed, i), Kind: "sizecross", Seed: c.Seed*31 + int64(i), Opts: o, Profile: fmt.Sprintf("cross:%d", valLen), Observe: true})
+	}
 	o := RunScenarios(scs, ValidateSpec{KV: true, Bolt: true}, filepath.Join(c.WorkDir, "runs"), 14, 4, c.ChildTimeout())
 	c.Absorb(o)
+	c.Cov["regime_crossings_refused"] = o.Counters["regime_crossings_refused"]
 	c.Cov["evaluations"] = o.Counters["decoded"]
 	c.Cov["distinct_nontrivial"] = DistinctNontrivial(o.PerScenario, func(m map[string]int) bool { return m["size_refused"] > 0 })
 	c.Cov["rule"] = "evaluations = file length observations (after every write transaction; plus every truncate / write checked by TLC against max(MaxSize, length at open)); a scenario (limit, page size, initial map size, alloc size drawn from a lattice with unaligned limits) is non-trivial when the limit actually refused >= 1 transaction"
